@@ -322,7 +322,12 @@ def check_auth(request, response, realm, users, encrypt=None):
             return False
 
         if not encrypt:
-            encrypt = _httpauth.DIGEST_AUTH_ENCODERS[_httpauth.MD5]
+            # md5 of the password as hex; the digest encoders take bytes, the
+            # password of a Basic header has been decoded to text
+            md5hex = _httpauth.DIGEST_AUTH_ENCODERS[_httpauth.MD5]
+
+            def encrypt(password):
+                return md5hex(password.encode('utf-8'))
 
         if isinstance(users, Callable):
             try:
